@@ -3,7 +3,7 @@
    I  = goja's baseObject (object.go / value.go / builtin_object.go) transcribed:
         valueProperty records with the bare-Value shortcut, _defineOwnProperty's decision tree,
         setOwn/setForeign per key kind, _delete, propNames + lastSortedPropLen + idxPropCount.
-   The record [fixes] switches individual one-line repairs on; [fx_none] is the current tree. *)
+   The record [fixes] switches individual one-line repairs on; [fx_cur] is the current tree. *)
 From Coq Require Import List Arith NArith Bool.
 Import ListNotations.
 
@@ -342,8 +342,10 @@ Record fixes := mkFixes {
   fix_n3 : bool;   (* object.go:725  clear getterFunc/setterFunc when the property becomes a data property *)
   fix_f2 : bool    (* object.go:625  setForeignSym: compare receiver with proto as Str/Idx do *)
 }.
-Definition fx_none := mkFixes false false false false false.
+Definition fx_none := mkFixes false false false false false.   (* the tree before 7dd46dd / 3750984 / 8a03683 *)
 Definition fx_all := mkFixes true true true true true.
+(* the current tree: F1 (7dd46dd), F2 (3750984) and N2 (8a03683) are repaired in /repo; N1 and N3 are open *)
+Definition fx_cur := mkFixes true false true false true.
 
 (* value.go: valueProperty *)
 Record vprop := mkVP {
